@@ -6,7 +6,7 @@ for d in sorted(glob.glob('/verif/seeded/C*-*')):
     try: m=json.load(open(d+'/meta.json'))
     except Exception: continue
     name=os.path.basename(d)
-    caught=", ".join(m.get('caught_by',[])) or "**missed**"
+    caught=", ".join(m.get('caught_by',[])) or ("not a violation (see remark)" if m.get('verdict')=='not-a-violation' else "**missed**")
     first=""
     for c in m.get('checks_run',[]):
         if c.get('first_violation'):
@@ -16,6 +16,6 @@ with open('/verif/seeded/INDEX.md','w') as f:
     f.write("# Seeded changes\n\nEach directory holds `patch.diff` (applies to /repo with `git -C /repo apply`), `demo.md` (the author's demonstration of the violation) and `meta.json`.\nThe changes were written by sub-agents that saw only the property text and a scratch worktree. Every one compiles with and without the verification cfg and passes the library's 369 unit tests (author's run, recorded in meta.json).\n`caught by` is the result of applying the patch to /repo and running `./check quick <ID>`; /repo was restored afterwards.\n\n")
     f.write("| change | title | files | kind | caught by | first signature | remark |\n|---|---|---|---|---|---|---|\n")
     for r in rows: f.write("| "+" | ".join(x.replace('|','/') for x in r)+" |\n")
-    n=len(rows); c=sum(1 for r in rows if r[4]!="**missed**")
-    f.write(f"\n{c} of {n} seeded changes are detected by the check of the property they were written against.\n")
+    n=len(rows); b=sum(1 for r in rows if r[4].startswith("not a violation")); c=sum(1 for r in rows if r[4]!="**missed**")-b
+    f.write(f"\n{c} of {n-b} property-breaking seeded changes are detected by the check of the property they were written against; {b} seeded change(s) were judged not to break the property as stated and are deliberately not flagged.\n")
 print(open('/verif/seeded/INDEX.md').read()[-300:])
